@@ -390,4 +390,27 @@ theorem prun_pin (s : PState P) (w : s.pc.WF) (ops : List (POp P)) (hv : ∀ op 
     | panic m => simp [h1] at h
     | err x => simp [h1] at h
 
+/-- no panic site on any valid operation sequence, coherent cache or not (also outside the callers' protocol) -/
+theorem prun_total (ops : List (POp P)) (s : PState P) (w : s.pc.WF) (hv : ∀ op ∈ ops, op.Valid) :
+    ∃ s' o, prun {} s ops = .ok (s', o) ∧ Same s.pc s'.pc := by
+  induction ops generalizing s with
+  | nil => exact ⟨s, [], rfl, Same.refl _⟩
+  | cons op rest ih =>
+    have hv0 := hv op (by simp)
+    have h1 : ∃ s1 o1, pstep {} s op = .ok (s1, o1) ∧ Same s.pc s1.pc := by
+      cases op with
+      | read id =>
+        obtain ⟨pc', r, hh, hs⟩ := pageRead_ok' s w id hv0
+        exact ⟨{ s with pc := pc' }, [r], by simp only [pstep, hh], hs⟩
+      | commit ups =>
+        obtain ⟨pc', hh, hs⟩ := batchUpdate_same s.pc w ups hv0
+        exact ⟨{ pc := pc', store := storeApply s.store ups }, [], by simp only [pstep, hh], hs⟩
+      | evict => exact ⟨{ s with pc := s.pc.evict }, [], rfl, s.pc.evict_same⟩
+      | fill ids =>
+        obtain ⟨pc', hh, hs⟩ := pageFill_same s.pc s.store w ids hv0
+        exact ⟨{ s with pc := pc' }, [], by simp only [pstep, hh], hs⟩
+    obtain ⟨s1, o1, e1, sm1⟩ := h1
+    obtain ⟨s2, o2, e2, sm2⟩ := ih s1 (sm1.wf w) (fun o ho => hv o (List.mem_cons_of_mem _ ho))
+    exact ⟨s2, o1 ++ o2, by simp only [prun, e1, e2], sm1.trans sm2⟩
+
 end Nomt.Cache
